@@ -4094,8 +4094,10 @@ iwrc iwkv_cursor_del(struct iwkv_cursor *cur, iwkv_opflags opflags) {
     RCGO(rc, finish2);
     if (!sblk->kvblk) {
       rc = _sblk_loadkvblk_mm(lx, sblk, mm);
-      fsm->release_mmap(fsm);
-      RCGO(rc, finish2);
+      if (rc) {
+        fsm->release_mmap(fsm);
+        goto finish2;
+      }
     }
     rc = _kvblk_key_get(sblk->kvblk, mm, sblk->pi[cur->cnpos], &key);
     fsm->release_mmap(fsm);
